@@ -48,8 +48,16 @@ func c09Policies(t *vlib.Target) (map[string]vlib.PolicySpec, []uint64) {
 	}
 	p.Syscalls[0].Action = vlib.RetLog
 	out["max4096"] = vlib.SpecOf(p, t.Name)
+	// sizes around the points where a 16-bit length field wraps (allow-everything policies: whatever happens is harmless)
+	for _, n := range oversizeLengths {
+		if q, l := exactSizePolicy(t, n); l == n {
+			out[fmt.Sprintf("size%d", n)] = vlib.SpecOf(q, t.Name)
+		}
+	}
 	return out, nrs
 }
+
+var oversizeLengths = []int{4097, 65535, 65536, 65537, 131072}
 
 type c09Plan struct {
 	inject       []string // strace fault injection: the kernel call fails/returns without attaching anything
@@ -88,6 +96,18 @@ func c09() {
 			}
 		}
 	}
+	// programs whose length does not fit the kernel interface's 16-bit length field (or just does)
+	for _, n := range oversizeLengths {
+		pk := fmt.Sprintf("size%d", n)
+		if _, ok := pols[pk]; !ok {
+			run.Count("oversize_policy_of_exact_length_not_built", 1)
+			continue
+		}
+		for ci, fl := range []uint32{0, flagTSync, flagLog} {
+			plans = append(plans, c09Plan{desc: fmt.Sprintf("program of exactly %d instructions flags=%#x", n, fl), threads: 2, unprivileged: ci == 2,
+				calls: []vlib.LoadCall{{Thread: 1, Op: "load", Flags: fl, NNP: ci != 1, Policy: pk}, {Thread: 0, Op: "load", Flags: 0, NNP: true, Policy: "valid0"}, {Thread: 1, Op: "load", Flags: fl, NNP: true, Policy: pk}}})
+		}
+	}
 	// the divergent-filter pattern and variations
 	for _, unpriv := range []bool{false, true} {
 		for _, fl2 := range []uint32{flagTSync, flagTSync | flagLog, flagTSync | 4, flagTSync | 0x10, 0x19, flagTSync | flagLog | 4} {
@@ -117,6 +137,18 @@ func c09() {
 		for _, fl := range []uint32{0, flagTSync, flagTSync | flagLog} {
 			plans = append(plans, c09Plan{desc: fmt.Sprintf("injected seccomp(2) failure %s flags=%#x", errno, fl), threads: 2, strace: true, inject: []string{"-e", "inject=seccomp:error=" + errno},
 				calls: []vlib.LoadCall{{Thread: 1, Op: "load", Flags: fl, NNP: true, Policy: "valid0"}, {Thread: 0, Op: "load", Flags: fl, NNP: false, Policy: "valid1"}}})
+		}
+	}
+	// transient failures: only the first seccomp(2) call of every thread is answered by the injector; what follows is the
+	// real kernel - in particular a thread-sync load that the kernel refuses because another thread carries a different
+	// filter (whether or not the library restarts an interrupted call, nil must mean attached)
+	for _, errno := range []string{"EINTR", "EAGAIN", "ENOMEM", "EBUSY"} {
+		for _, fl := range []uint32{flagTSync, flagTSync | flagLog, flagTSync | 0x10} {
+			plans = append(plans, c09Plan{desc: fmt.Sprintf("transient %s on each thread's first seccomp(2) call, then a refused thread-sync flags=%#x", errno, fl), threads: 3, strace: true, divergent: true,
+				inject: []string{"-e", "inject=seccomp:error=" + errno + ":when=1"},
+				calls: []vlib.LoadCall{{Thread: 0, Op: "load", Flags: 0, NNP: true, Policy: "valid0"}, {Thread: 0, Op: "load", Flags: 0, NNP: true, Policy: "valid0"},
+					{Thread: 1, Op: "load", Flags: fl, NNP: true, Policy: "valid1"}, {Thread: 1, Op: "load", Flags: fl, NNP: true, Policy: "valid1"},
+					{Thread: 2, Op: "load", Flags: flagLog, NNP: false, Policy: "valid2"}, {Thread: 2, Op: "load", Flags: fl, NNP: false, Policy: "valid3"}}})
 		}
 	}
 	for _, fl := range []uint32{flagTSync, flagTSync | flagLog, flagTSync | 4} {
@@ -403,4 +435,51 @@ func c09() {
 	}
 	run.Finish(run.Counter("calls"), int64(len(distinct)),
 		"histories of load/Supported/SetNoNewPrivs calls on pinned OS threads in fresh child processes: all 13 flag words (incl. SPEC_ALLOW, TSYNC_ESRCH, NEW_LISTENER combinations) x NNP x {valid, invalid name, invalid action, oversize, exactly 4096 instructions} x {root, uid 65534} single-call histories, the divergent-filter thread-sync pattern, a thread-sync chain, and PRNG histories of 1..6 calls over 2..5 threads; per-thread kernel state and probe outcomes compared around every call; plus concurrent histories (2..4 threads calling LoadFilter at the same time, call/return times from one monotonic clock, final per-thread filters read back) checked for linearizability with porcupine against a sequential model of per-thread filter stacks; distinct = distinct call sequences")
+}
+
+// exactSizePolicy builds an allow-everything policy (groups of at most 200 unconditional names, actions allow/log)
+// whose program has exactly target instructions, by compiling and correcting the size of the last groups.
+func exactSizePolicy(t *vlib.Target, target int) (*seccomp.Policy, int) {
+	const per = 200
+	names := func(from, n int) []string {
+		out := make([]string, n)
+		for i := range out {
+			out[i] = t.Names[(from+i)%len(t.Names)]
+		}
+		return out
+	}
+	build := func(total int) *seccomp.Policy {
+		p := &seccomp.Policy{DefaultAction: vlib.RetAllow}
+		for g := 0; total > 0; g++ {
+			n := per
+			if total < n {
+				n = total
+			}
+			p.Syscalls = append(p.Syscalls, seccomp.SyscallGroup{Action: []seccomp.Action{vlib.RetAllow, vlib.RetLog}[g%2], Names: names(g*13, n)})
+			total -= n
+		}
+		return p
+	}
+	length := func(p *seccomp.Policy) int {
+		c := vlib.Compile(vlib.SpecOf(p, t.Name).Policy(), t)
+		if !c.OK() {
+			return -1
+		}
+		return len(c.Raw)
+	}
+	total := target * per / (per + 3)
+	var p *seccomp.Policy
+	l := 0
+	for it := 0; it < 12; it++ {
+		p = build(total)
+		l = length(p)
+		if l < 0 || l == target {
+			break
+		}
+		total += target - l
+		if total < 1 {
+			total = 1
+		}
+	}
+	return p, l
 }
